@@ -20,13 +20,14 @@ def canContain (parent child : Kind) : Bool :=
     | .descriptionList => child == .descriptionItem
     | .descriptionItem => child == .descriptionTerm || child == .descriptionDetails
     | .paragraph | .heading | .emph | .strong | .link | .image | .wikiLink | .strikethrough
-    | .superscript | .spoileredText | .underline | .subscript | .escapedTag => !child.isBlock
+    | .superscript | .spoileredText | .underline | .subscript | .escaped | .escapedTag => !child.isBlock
     | .table => child == .tableRow
     | .tableRow => child == .tableCell
     | .tableCell =>
       match child with
       | .text | .code | .emph | .strong | .link | .image | .strikethrough | .htmlInline | .math
-      | .wikiLink | .footnoteReference | .superscript | .spoileredText | .underline | .subscript => true
+      | .wikiLink | .footnoteReference | .superscript | .spoileredText | .underline | .subscript
+      | .escaped | .escapedTag => true
       | _ => false
     | _ => false
 
